@@ -30,6 +30,9 @@ PARTIAL = [
     "Gram matrices failing the Cholesky test need statsmodels (absent): classified, not modelled",
     "irregular components: only well-formedness (runs / shapes / finite) is sampled",
     "NumInt scores involve local-polynomial smoothing of the new data: only shape and finiteness are sampled",
+    "Gram route: the eigen-solver output (l, v) and the curves `_data_inpro` (data centred once more by inner_product) are "
+    "captured; orthonormality of v is a solver contract; transform(None, 'NumInt') integrates the fit-centred training data, "
+    "not `_data_inpro` (the proved NumInt = InnPro identity is checked on `_data_inpro`)",
 ]
 TRUSTED_EXTRA = []
 
@@ -902,9 +905,11 @@ def oracle(case, impl):
             for q, p in enumerate(o["order"]):
                 t = np.array(fl([F(x) for x in case["comps"][p]["t"]]))
                 psi = np.asarray(o["psi"][q], dtype=float)
-                for a in range(K):
-                    for b in range(K):
-                        G[a, b] += np.trapz(psi[a] * psi[b], t)
+                with np.errstate(all="ignore"), warnings.catch_warnings():
+                    warnings.simplefilter("ignore")
+                    for a in range(K):
+                        for b in range(K):
+                            G[a, b] += np.trapz(psi[a] * psi[b], t)
             s2 = float(np.sum(o["sigma2"]))
             want = np.diag((l + s2) / np.where(l > 0, l, 1.0))
             idx = np.ix_(pos_idx, pos_idx)
@@ -917,8 +922,10 @@ def oracle(case, impl):
             for q, p in enumerate(o["order"]):
                 t = np.array(fl([F(x) for x in case["comps"][p]["t"]]))
                 Dq, psi = np.asarray(o["D"][q], dtype=float), np.asarray(o["psi"][q], dtype=float)
-                for k in range(K):
-                    T[:, k] += np.trapz(Dq * psi[k][None, :], t, axis=1)
+                with np.errstate(all="ignore"), warnings.catch_warnings():
+                    warnings.simplefilter("ignore")
+                    for k in range(K):
+                        T[:, k] += np.trapz(Dq * psi[k][None, :], t, axis=1)
             if s2 == 0.0 and pos_idx and np.isfinite(T).all():
                 dev = np.abs(S[:, pos_idx] - T[:, pos_idx]).max()
                 if dev > 1e-6 * max(np.abs(S).max(), 1e-300):
